@@ -40,7 +40,8 @@ CHECKS = {
     'C06': dict(
         technique='model-based property testing over call histories (Hypothesis-drawn step sequences, shrunk as one value): every call compared with the same call on a fresh graph; node-value and seed invariants after every reverse sweep',
         text='Histories of up to 10 calls (forward at other point/D/P/kind, repeated reverse sweeps, drivers, second graph, plain replay) are applied '
-             'to one recorded program; each result is compared with the result obtained from the call\'s arguments alone (direct execution / fresh graph), '
+             'to one recorded program; each result is compared with the result obtained from the call\'s arguments alone (direct execution / fresh graph; driver results '
+             'also with forward-mode derivatives of the direct program, which share no state with any graph), '
              'and after every reverse sweep all node forward values and the caller\'s seed must be byte-identical.',
         note='the fresh graph uses the same kernels (history independence is the claim, correctness of single calls is C03/C04/C05); tolerance 1e-12; '
              'histories <= 10 steps',
